@@ -5,7 +5,7 @@ import random
 from . import relaysys, tlc
 from .core import Machinery
 
-C07_FLAGS = {'content', 'drops', 'fake', 'batch', 'stopflush', 'undelivered'}
+C07_FLAGS = {'content', 'drops', 'fake', 'batch', 'stopflush', 'undelivered', 'abandoned', 'misrouted'}
 C09_FLAGS = {'stuck'}
 WHAT = {
   'content': 'what a destination has been sent plus what is still queued for it is not the accepted datapoints in arrival order, exactly once (within the hard limit)',
@@ -13,6 +13,8 @@ WHAT = {
   'fake': 'datapoints buffered while no destination is available were lost or duplicated',
   'batch': 'a message carried more than MAX_DATAPOINTS_PER_MESSAGE datapoints (or none)',
   'stopflush': 'an orderly stop closed a connection whose queue still held datapoints',
+  'misrouted': 'a datapoint was routed to no destination although one is configured (or to one that is not): it is held back / dropped instead of queued',
+  'abandoned': 'a destination whose queue still holds datapoints is neither connected nor connecting nor waiting to retry: they will never be written',
   'undelivered': 'a connected, unpaused destination holds queued datapoints but no send is scheduled: they will never be written',
   'stuck': 'quiescent with a destination up and every send queue below its low watermark, but receivers are still paused',
 }
@@ -146,6 +148,38 @@ def run_traces(ctx, rm, cfg, nsim, nrandom, nevents, seed_base, maxitems=6, maxc
     ctx.evaluations += 1
     if skipped:
       ctx.cov['replays_cut_short'] = ctx.cov.get('replays_cut_short', 0) + 1
+  # directed: an orderly stop while datapoints are queued behind a paused transport, then the connection is lost:
+  # the destination must be retried, reconnected and flushed before it is given up
+  nd = cfg['nd']
+  for variant in range(3):
+    sc = [('ConnMade', d) for d in range(1, nd + 1)] + [('TPause', d) for d in range(1, nd + 1)]
+    sc += [('Arrive', 0)] * (2 + variant) + [('Stop', 0)]
+    if variant == 0:
+      sc += [('ConnLost', d) for d in range(1, nd + 1)] + [('RetryTimer', d) for d in range(1, nd + 1)] + [('ConnMade', d) for d in range(1, nd + 1)]
+    elif variant == 1:
+      sc += [('TResume', 1), ('ConnLost', 1), ('RetryTimer', 1), ('ConnMade', 1)]
+    else:
+      sc += [('ConnLost', 1), ('RetryTimer', 1), ('ConnFailed', 1), ('RetryTimer', 1), ('ConnMade', 1)]
+    tr, skipped = relaysys.scripted_run(rm, cfg, sc, settle=True)
+    traces.append(tr)
+    origins.append(dict(kind='replayed TLC behaviour', cfg=cfg, script=[list(x) for x in sc], skipped=skipped, directed='stop with a backlog'))
+    ctx.evaluations += 1
+  if cfg.get('dynamic'):
+    # directed: every destination fails until the dynamic router has removed them all; datapoints that arrive now are held
+    # back by the manager; a destination comes back: what was held back is routed to it, nothing disappears
+    mr = cfg.get('max_retries', 1)
+    for variant in range(2):
+      sc = []
+      for r in range(mr + 1):
+        sc += [('ConnFailed', d) for d in range(1, nd + 1)] + ([('RetryTimer', d) for d in range(1, nd + 1)] if r < mr else [])
+      sc += [('Arrive', 0)] * (2 + variant)
+      sc += [('RetryTimer', 1), ('ConnMade', 1), ('SendTimer', 1), ('SendTimer', 1)]
+      if variant and nd > 1:
+        sc += [('RetryTimer', 2), ('ConnMade', 2), ('Arrive', 0), ('SendTimer', 2)]
+      tr, skipped = relaysys.scripted_run(rm, cfg, sc, settle=True)
+      traces.append(tr)
+      origins.append(dict(kind='replayed TLC behaviour', cfg=cfg, script=[list(x) for x in sc], skipped=skipped, directed='all destinations down, then one returns'))
+      ctx.evaluations += 1
   for k in range(nrandom):
     seed = ctx.rng.randrange(1 << 30)
     rr = random.Random(seed)
